@@ -23,63 +23,63 @@ def aliasesOut (al : List PName) : JOut := .arr (al.map (fun a => .str a.full))
 /-- `FixedSchema::serialize_to_map` (custom attributes named in `skip` are left out: the decimal
 arm writes `scale` and `precision` itself) -/
 def fixedEntries (f : FixedP) (skip : List Bytes) : List (Bytes × JOut) :=
-  [(bs "type", .str (bs "fixed"))] ++
-  (match f.name.ns with | some n => [(bs "namespace", .str n)] | none => []) ++
-  [(bs "name", .str f.name.name)] ++
-  (match f.doc with | some d => [(bs "doc", .str d)] | none => []) ++
-  [(bs "size", .num f.size)] ++
-  (match f.aliases with | some al => [(bs "aliases", aliasesOut al)] | none => []) ++
+  [(b!"type", .str b!"fixed")] ++
+  (match f.name.ns with | some n => [(b!"namespace", .str n)] | none => []) ++
+  [(b!"name", .str f.name.name)] ++
+  (match f.doc with | some d => [(b!"doc", .str d)] | none => []) ++
+  [(b!"size", .num f.size)] ++
+  (match f.aliases with | some al => [(b!"aliases", aliasesOut al)] | none => []) ++
   attrsOut (f.attrs.filter (fun kv => !skip.contains kv.1))
 
-def logicalOut (base lt : String) : JOut :=
-  .obj [(bs "type", .str (bs base)), (bs "logicalType", .str (bs lt))]
+def logicalOut (base lt : Bytes) : JOut :=
+  .obj [(b!"type", .str base), (b!"logicalType", .str lt)]
 
 mutual
 /-- `impl Serialize for Schema` -/
 def toJson : PSchema → JOut
   | .ref n => .str n.full
-  | .null => .str (bs "null") | .boolean => .str (bs "boolean") | .int => .str (bs "int")
-  | .long => .str (bs "long") | .float => .str (bs "float") | .double => .str (bs "double")
-  | .bytes => .str (bs "bytes") | .string => .str (bs "string")
-  | .array items attrs => .obj ([(bs "type", .str (bs "array")), (bs "items", toJson items)] ++ attrsOut attrs)
-  | .map values attrs => .obj ([(bs "type", .str (bs "map")), (bs "values", toJson values)] ++ attrsOut attrs)
+  | .null => .str b!"null" | .boolean => .str b!"boolean" | .int => .str b!"int"
+  | .long => .str b!"long" | .float => .str b!"float" | .double => .str b!"double"
+  | .bytes => .str b!"bytes" | .string => .str b!"string"
+  | .array items attrs => .obj ([(b!"type", .str b!"array"), (b!"items", toJson items)] ++ attrsOut attrs)
+  | .map values attrs => .obj ([(b!"type", .str b!"map"), (b!"values", toJson values)] ++ attrsOut attrs)
   | .union branches => .arr (toJsonList branches)
   | .record name aliases doc fields attrs =>
-    .obj ([(bs "type", .str (bs "record"))] ++
-      (match name.ns with | some n => [(bs "namespace", .str n)] | none => []) ++
-      [(bs "name", .str name.name)] ++
-      (match doc with | some d => [(bs "doc", .str d)] | none => []) ++
-      (match aliases with | some al => [(bs "aliases", aliasesOut al)] | none => []) ++
-      [(bs "fields", .arr (toJsonFields fields))] ++
+    .obj ([(b!"type", .str b!"record")] ++
+      (match name.ns with | some n => [(b!"namespace", .str n)] | none => []) ++
+      [(b!"name", .str name.name)] ++
+      (match doc with | some d => [(b!"doc", .str d)] | none => []) ++
+      (match aliases with | some al => [(b!"aliases", aliasesOut al)] | none => []) ++
+      [(b!"fields", .arr (toJsonFields fields))] ++
       attrsOut attrs)
   | .enum name aliases doc symbols default attrs =>
-    .obj ([(bs "type", .str (bs "enum"))] ++
-      (match name.ns with | some n => [(bs "namespace", .str n)] | none => []) ++
-      [(bs "name", .str name.name), (bs "symbols", .arr (symbols.map .str))] ++
-      (match aliases with | some al => [(bs "aliases", aliasesOut al)] | none => []) ++
-      (match default with | some d => [(bs "default", .str d)] | none => []) ++
-      (match doc with | some d => [(bs "doc", .str d)] | none => []) ++
+    .obj ([(b!"type", .str b!"enum")] ++
+      (match name.ns with | some n => [(b!"namespace", .str n)] | none => []) ++
+      [(b!"name", .str name.name), (b!"symbols", .arr (symbols.map .str))] ++
+      (match aliases with | some al => [(b!"aliases", aliasesOut al)] | none => []) ++
+      (match default with | some d => [(b!"default", .str d)] | none => []) ++
+      (match doc with | some d => [(b!"doc", .str d)] | none => []) ++
       attrsOut attrs)
   | .fixed f => .obj (fixedEntries f [])
   | .decimal precision scale inner =>
     .obj ((match inner with
-           | some f => fixedEntries f [bs "scale", bs "precision"]
-           | none => [(bs "type", .str (bs "bytes"))]) ++
-      [(bs "logicalType", .str (bs "decimal")), (bs "scale", .num scale), (bs "precision", .num precision)])
-  | .bigDecimal => logicalOut "bytes" "big-decimal"
-  | .uuidBytes => logicalOut "bytes" "uuid"
-  | .uuidString => logicalOut "string" "uuid"
-  | .uuidFixed f => .obj (fixedEntries f [] ++ [(bs "logicalType", .str (bs "uuid"))])
-  | .date => logicalOut "int" "date"
-  | .timeMillis => logicalOut "int" "time-millis"
-  | .timeMicros => logicalOut "long" "time-micros"
-  | .tsMillis => logicalOut "long" "timestamp-millis"
-  | .tsMicros => logicalOut "long" "timestamp-micros"
-  | .tsNanos => logicalOut "long" "timestamp-nanos"
-  | .ltsMillis => logicalOut "long" "local-timestamp-millis"
-  | .ltsMicros => logicalOut "long" "local-timestamp-micros"
-  | .ltsNanos => logicalOut "long" "local-timestamp-nanos"
-  | .duration f => .obj (fixedEntries f [] ++ [(bs "logicalType", .str (bs "duration"))])
+           | some f => fixedEntries f [b!"scale", b!"precision"]
+           | none => [(b!"type", .str b!"bytes")]) ++
+      [(b!"logicalType", .str b!"decimal"), (b!"scale", .num scale), (b!"precision", .num precision)])
+  | .bigDecimal => logicalOut b!"bytes" b!"big-decimal"
+  | .uuidBytes => logicalOut b!"bytes" b!"uuid"
+  | .uuidString => logicalOut b!"string" b!"uuid"
+  | .uuidFixed f => .obj (fixedEntries f [] ++ [(b!"logicalType", .str b!"uuid")])
+  | .date => logicalOut b!"int" b!"date"
+  | .timeMillis => logicalOut b!"int" b!"time-millis"
+  | .timeMicros => logicalOut b!"long" b!"time-micros"
+  | .tsMillis => logicalOut b!"long" b!"timestamp-millis"
+  | .tsMicros => logicalOut b!"long" b!"timestamp-micros"
+  | .tsNanos => logicalOut b!"long" b!"timestamp-nanos"
+  | .ltsMillis => logicalOut b!"long" b!"local-timestamp-millis"
+  | .ltsMicros => logicalOut b!"long" b!"local-timestamp-micros"
+  | .ltsNanos => logicalOut b!"long" b!"local-timestamp-nanos"
+  | .duration f => .obj (fixedEntries f [] ++ [(b!"logicalType", .str b!"duration")])
 def toJsonList : List PSchema → List JOut
   | [] => []
   | s :: rest => toJson s :: toJsonList rest
@@ -87,10 +87,10 @@ def toJsonList : List PSchema → List JOut
 def toJsonFields : List (FieldHdr × PSchema) → List JOut
   | [] => []
   | (h, s) :: rest =>
-    .obj ([(bs "name", .str h.name), (bs "type", toJson s)] ++
-      (match h.default with | some d => [(bs "default", .raw d)] | none => []) ++
-      (match h.doc with | some d => [(bs "doc", .str d)] | none => []) ++
-      (if h.aliases.isEmpty then [] else [(bs "aliases", .arr (h.aliases.map .str))]) ++
+    .obj ([(b!"name", .str h.name), (b!"type", toJson s)] ++
+      (match h.default with | some d => [(b!"default", .raw d)] | none => []) ++
+      (match h.doc with | some d => [(b!"doc", .str d)] | none => []) ++
+      (if h.aliases.isEmpty then [] else [(b!"aliases", .arr (h.aliases.map .str))]) ++
       attrsOut h.attrs) :: toJsonFields rest
 end
 
@@ -127,12 +127,12 @@ end
 
 /-! ### Parsing Canonical Form -/
 
-def reservedFields : List String :=
-  ["name", "type", "fields", "symbols", "items", "values", "size", "logicalType", "order", "doc", "aliases", "default",
-   "precision", "scale"]
+def reservedFields : List Bytes :=
+  [b!"name", b!"type", b!"fields", b!"symbols", b!"items", b!"values", b!"size", b!"logicalType", b!"order", b!"doc",
+   b!"aliases", b!"default", b!"precision", b!"scale"]
 
 /-- `field_ordering_position` (0-based here) -/
-def fieldPos (k : Bytes) : Option Nat := (reservedFields.map bs).findIdx? (· == k)
+def fieldPos (k : Bytes) : Option Nat := reservedFields.findIdx? (· == k)
 
 def pcfString (s : Bytes) : Bytes := [34] ++ s ++ [34]
 
@@ -167,17 +167,17 @@ def parseI64 (s : Bytes) : Option Int :=
     if -9223372036854775808 ≤ v ∧ v ≤ 9223372036854775807 then some v else none
 
 def isNamedType (t : Option Bytes) : Bool :=
-  t == some (bs "record") || t == some (bs "enum") || t == some (bs "fixed") || t == some (bs "ref")
+  t == some b!"record" || t == some b!"enum" || t == some b!"fixed" || t == some b!"ref"
 
 /-- the relevant keys of a node, by its kind (the specification's STRIP rule: a custom attribute may
 carry the name of a key that is relevant for another kind) -/
 def relevantKeys (t : Option Bytes) : List Bytes :=
-  if t == some (bs "record") || t == some (bs "error") then [bs "name", bs "type", bs "fields"]
-  else if t == some (bs "enum") then [bs "name", bs "type", bs "symbols"]
-  else if t == some (bs "fixed") then [bs "name", bs "type", bs "size"]
-  else if t == some (bs "array") then [bs "type", bs "items"]
-  else if t == some (bs "map") then [bs "type", bs "values"]
-  else [bs "name", bs "type"]
+  if t == some b!"record" || t == some b!"error" then [b!"name", b!"type", b!"fields"]
+  else if t == some b!"enum" then [b!"name", b!"type", b!"symbols"]
+  else if t == some b!"fixed" then [b!"name", b!"type", b!"size"]
+  else if t == some b!"array" then [b!"type", b!"items"]
+  else if t == some b!"map" then [b!"type", b!"values"]
+  else [b!"name", b!"type"]
 
 /-- `pcf_array`: `f` is the recursive call -/
 def pcfArr (f : Json → List Bytes → Option (Bytes × List Bytes)) :
@@ -196,14 +196,14 @@ def pcfEntries (f : Json → List Bytes → Option (Bytes × List Bytes)) (nKeys
   | [], defined, acc => some (.inr acc, defined)
   | (k, v) :: rest, defined, acc =>
     -- the PRIMITIVE rule: an object with the single key "type" whose value is a string
-    if nKeys == 1 && k == bs "type" && v.asStr?.isSome then some (.inl (pcfString (v.asStr?.getD [])), defined)
+    if nKeys == 1 && k == b!"type" && v.asStr?.isSome then some (.inl (pcfString (v.asStr?.getD [])), defined)
     else if !relevant.contains k then pcfEntries f nKeys relevant name rest defined acc
     else match fieldPos k with
       | none => pcfEntries f nKeys relevant name rest defined acc
       | some pos =>
-        if k == bs "name" && name.isSome then
+        if k == b!"name" && name.isSome then
           pcfEntries f nKeys relevant name rest defined (insertByPos (pos, pcfString k ++ [58] ++ pcfString (name.getD [])) acc)
-        else if k == bs "size" then
+        else if k == b!"size" then
           -- `s.parse::<u64>().expect(..)` / `v.as_u64().expect(..)`
           (match v with
            | .str s => (match parseI64 s with
@@ -231,11 +231,11 @@ def pcf : Nat → Json → List Bytes → Option (Bytes × List Bytes)
        | none => none)
     | .obj kvs =>
       -- `pcf_map`
-      let typ := objStr kvs (bs "type")
+      let typ := objStr kvs b!"type"
       let name : Option Bytes :=
         if isNamedType typ then
-          let ns := objStr kvs (bs "namespace")
-          let raw := (objStr kvs (bs "name")).getD []
+          let ns := objStr kvs b!"namespace"
+          let raw := (objStr kvs b!"name").getD []
           some ((match ns with | some n => n ++ [46] | none => []) ++ raw)
         else none
       match (match name with | some n => if defined.contains n then some n else none | none => none) with
